@@ -121,7 +121,7 @@ def standalone_first_candidates(ty):
     """(nested class N, allowed uses) for uses of N on its own that may precede the first use of `ty`.
 
     Kept out (recorded finding `shared-nested-config-leak`, listed for C06 / C07, architectural: the per-class tables are
-    keyed by class, not by (class, config); see also /tmp/ag/A/findings/standalone-load-fixes-tag-key.md):
+    keyed by class, not by (class, config); see also findings/standalone-load-fixes-tag-key.py):
     (a) an N that itself cascades a Meta to classes below it - their per-class binding would survive into the use of `ty`;
     (b) *loading* an N on its own when a class in its subtree dispatches a Union on a tag and `ty` cascades another tag_key /
         auto_assign_tags to it - the Union parser cached for the field keeps the tag settings of the first use."""
